@@ -262,9 +262,9 @@ def check(prog, rep):
         has = k in registered or d0.handler(prog, k) is not None
         rep.ob("R02.4", k, has, "has a gradient rule" + (" (registered)" if k in registered else " (walker arm)") if has else f"{k} has neither a walker arm nor a registered gradient rule: gradient() raises for an expression the API can build", loc=ci.loc, detail="rule-exists")
 
-    _simplifiers(prog, rep)
-    _functions_table(prog, rep)
-    _registered_rules(prog, rep, registered)
+    rep.section(_simplifiers, prog, rep)
+    rep.section(_functions_table, prog, rep)
+    rep.section(_registered_rules, prog, rep, registered)
 
     rep.expect_min("R02.1", 40)
     rep.expect_min("R02.2", 14)
